@@ -177,6 +177,23 @@ def check_case(ctx, tokens, comp, doc, texts=None):
         ctx.violation("renamed-tokens-evaluate-differently", case, {"tokens": tokens, "default_text": t_def, "custom_text": t_cus, "default": repr(base)[:300], "custom": repr(got)[:300]})
         return
     ctx.cell("identifiers_renamed", renamed or "none")
+    # the other entry points, and projection expressions (queries in their own right) written with the same spellings
+    for route, fd, fc in (("findall", lambda: [canon(v) for v in jsonpath.DEFAULT_ENV.findall(t_def, doc, filter_context=EXTRA)], lambda: [canon(v) for v in env.findall(t_cus, doc, filter_context=EXTRA)]),
+                          ("query.values", lambda: [canon(v) for v in jsonpath.DEFAULT_ENV.query(t_def, doc, filter_context=EXTRA).values()], lambda: [canon(v) for v in env.query(t_cus, doc, filter_context=EXTRA).values()])):
+        a, b = impl.call(fd), impl.call(fc)
+        if a.ok and (not b.ok or a.value != b.value):
+            ctx.violation("renamed-tokens-evaluate-differently:%s" % route, case, {"tokens": tokens, "default_text": t_def, "custom_text": t_cus, "default": repr(a.value)[:300], "custom": b.desc() if not b.ok else repr(b.value)[:300]})
+            return
+    for ast in ([["q", "$", [["child", [["name", n]]]]] for n in r.sample(["a", "b", "c", "k", "v"], 2)] + [["q", "$", [["child", [["wild"]]]]], ["q", "$", [["desc", [["name", "a"]]]]], ["q", "$", [["child", [["name", "a"], ["name", "k"]]]]]]):
+        e_def = Renderer(random.Random(seed), plain=True).top(ast)
+        e_cus = Renderer(random.Random(seed), plain=True, tokens=tokens).top(ast)
+        for proj in (jsonpath.Projection.RELATIVE, jsonpath.Projection.FLAT):
+            a = impl.call(lambda: [canon(v) for v in jsonpath.DEFAULT_ENV.query(t_def, doc, filter_context=EXTRA).select(e_def, projection=proj)])
+            b = impl.call(lambda: [canon(v) for v in env.query(t_cus, doc, filter_context=EXTRA).select(e_cus, projection=proj)])
+            ctx.count("projection_expressions_compared")
+            if a.ok and (not b.ok or a.value != b.value):
+                ctx.violation("renamed-tokens-evaluate-differently:projection-expression", case, {"tokens": tokens, "query": [t_def, t_cus], "projection_expression": [e_def, e_cus], "default": repr(a.value)[:300], "custom": b.desc() if not b.ok else repr(b.value)[:300]})
+                return
     c = impl.call(env.compile, t_cus)
     s = impl.call(str, c.value)
     if not s.ok:
